@@ -89,9 +89,14 @@ Impl_ExemptURI(c) ==
 \*      "rp_noise_get" / "rp_noise_options" = like "xfu" (reverse-proxy on) plus the method-override headers
 Vias == {"target", "xfu", "decoy", "noise_get", "noise_options", "rp_noise_get", "rp_noise_options"}
 NoiseVias == {"noise_get", "noise_options", "rp_noise_get", "rp_noise_options"}
-Mk(m, p, q, f, rs, pf, v) == [method |-> m, path |-> p, query |-> q, frag |-> f, rules |-> rs, preflight |-> pf, via |-> v]
+\* cred: "refused" = the request also carries the still valid session cookie of a user whom the authorisation rules refuse (the rules
+\*       changed after the login). The Cookie header is one of the "other headers": the exemption does not depend on it.
+Creds == {"none", "refused"}
+Mk2(m, p, q, f, rs, pf, v, cr) == [method |-> m, path |-> p, query |-> q, frag |-> f, rules |-> rs, preflight |-> pf, via |-> v, cred |-> cr]
+Mk(m, p, q, f, rs, pf, v) == Mk2(m, p, q, f, rs, pf, v, "none")
 
-InScope(c) == /\ (c.frag # <<>> => c.via = "xfu")            \* a fragment cannot travel in a request target
+InScope(c) == /\ (c.cred = "refused" => c.via = "target" /\ c.query = <<>> /\ c.method \in {"GET", "POST", "OPTIONS"} /\ (Tier = "quick" => Len(c.rules) = 1))
+              /\ (c.frag # <<>> => c.via = "xfu")            \* a fragment cannot travel in a request target
               /\ (c.path \in SlashyPaths => c.via \in {"xfu", "rp_noise_get"} /\ c.frag = <<>>)
               /\ (c.via \in NoiseVias => c.query = <<>> /\ c.method \in {"GET", "POST", "OPTIONS"} /\ (Tier = "quick" => Len(c.rules) = 1))
               \* the further methods only matter for the method comparison: plain request targets
@@ -108,8 +113,8 @@ CaseRec(c) == [fam |-> "c15route", in |-> c,
 \* ---- TLC: every case is an initial state; invariants compare Impl with Req -------------
 VARIABLE c
 \* nested quantifiers, not one big filtered set: TLC enumerates this in linear time
-Init == \E m \in Methods, p \in Paths, q \in Queries, f \in Fragments, rs \in RuleSets, pf \in BOOLEAN, v \in Vias :
-          c = Mk(m, p, q, f, rs, pf, v) /\ InScope(c)
+Init == \E m \in Methods, p \in Paths, q \in Queries, f \in Fragments, rs \in RuleSets, pf \in BOOLEAN, v \in Vias, cr \in Creds :
+          c = Mk2(m, p, q, f, rs, pf, v, cr) /\ InScope(c)
 Next == UNCHANGED c
 ImplMeetsReq    == Impl_Exempt(c) = Req_Exempt(c)
 PreFixWouldPass == Impl_ExemptURI(c) = Req_Exempt(c)      \* must be violated (selftest)
